@@ -44,6 +44,7 @@ type codec struct {
 	rawGen func(g *G) ([]byte, []int)             // types without constructors: generate bytes directly
 	norm   func(v any) string                     // form compared across re-encoding / JSON (nil: show)
 	altEnc func(v any) ([]byte, error)            // another valid encoding of v (compressed message)
+	extra  func(v any, rep *report)               // type-specific additional checks on an accepted value
 	looseEnc bool                                 // the encoding is text (JSON): null vs [] differences are not compared
 }
 
@@ -72,6 +73,9 @@ func serCodec(name string, newv func() io.Serializable, gen func(g *G) any) *cod
 		enc: func(v any) ([]byte, error) { return encBytes(v.(io.Serializable)) },
 	}
 }
+
+// errNoJSON: the value has no JSON form (not a failure).
+var errNoJSON = errors.New("no JSON form")
 
 func jsonVia[T any](v any) (any, error) {
 	j, err := json.Marshal(v)
@@ -187,8 +191,32 @@ func initCodecs() {
 	c = reg(serCodec("attr", func() io.Serializable { return &transaction.Attribute{} }, func(g *G) any { a := g.attr(nil); return &a }))
 	c.show = showOf(showAttr)
 	c.jsonRT = jsonVia[transaction.Attribute]
-	c.jsonOK = func(v any) bool { // Reserved attributes have no JSON type name (AttrType.String() has none)
+	c.jsonOK = func(v any) bool { // Reserved attributes: checked separately under their own key (below)
 		return v.(*transaction.Attribute).Type < transaction.ReservedLowerBound
+	}
+	c.extra = func(v any, rep *report) {
+		a := v.(*transaction.Attribute)
+		if a.Type < transaction.ReservedLowerBound {
+			return
+		}
+		// a Reserved attribute (accepted by the binary decoder, valid on networks with ReservedAttributes)
+		// marshals to JSON but Attribute.UnmarshalJSON knows no such type name
+		j, err := json.Marshal(a)
+		if err != nil {
+			rep.fail("json-reserved-attribute", "Reserved attribute 0x%02x does not marshal: %v", byte(a.Type), err)
+			return
+		}
+		out := new(transaction.Attribute)
+		if err := json.Unmarshal(j, out); err != nil {
+			rep.fail("json-reserved-attribute", "Reserved attribute 0x%02x marshals to %s, which UnmarshalJSON rejects: %v", byte(a.Type), trunc(string(j), 120), err)
+			return
+		}
+		var s1, s2 sb
+		showAttr(&s1, a)
+		showAttr(&s2, out)
+		if s1.String() != s2.String() {
+			rep.fail("json-reserved-attribute", "Reserved attribute 0x%02x changes across JSON: %s vs %s", byte(a.Type), trunc(s1.String(), 100), trunc(s2.String(), 100))
+		}
 	}
 
 	c = reg(serCodec("tx", func() io.Serializable { return &transaction.Transaction{} }, func(g *G) any { return g.tx() }))
@@ -356,6 +384,9 @@ func initCodecs() {
 		if !prot {
 			c.jsonRT = func(v any) (any, error) {
 				j, err := stackitem.ToJSONWithTypes(v.(*itemBox).it)
+				if errors.Is(err, stackitem.ErrTooBig) {
+					return nil, errNoJSON // the JSON text has its own size limit (MaxSize)
+				}
 				if err != nil {
 					return nil, fmt.Errorf("marshal: %w", err)
 				}
